@@ -21,7 +21,7 @@ RULE = ('a non-exclusive request K (kill with a per-request graceful_timeout abo
         'loop-iteration boundary of every execution of the probe scenarios; virtual time spent in time.sleep / blocking '
         'waits is charged per loop iteration')
 ASSUMPTIONS = ['budget: 50 ms of virtual time slept per loop iteration (reap_process legitimately sleeps 1 ms at a time for a dying worker)',
-               'completion bound: 2*max(graceful timeouts in force) + n*warmup + 1 s after acceptance']
+               'completion bound: 2*max(graceful timeouts in force) + n*warmup + 1 s after acceptance; in the `tight` world (one request, nothing else in flight, one deviation in every tier): one grace period per termination phase + n*warmup + 0.5 s']
 
 KS = ['none', 'kill-long', 'kill-short', 'kill-pid', 'signal', 'kill-3s']
 READONLY = [('status', {'name': 'a'}), ('list', {'name': 'a'}), ('list', {}), ('numprocesses', {'name': 'a'}),
@@ -62,6 +62,8 @@ def scenarios(tier):
 def bound(tier, scn):
     if scn.name in ('probe', 'ondemand', 'output'):
         return 0
+    if scn.p.get('tight'):
+        return 1            # ONE request and nothing else in flight: that is what makes the tight deadline applicable
     return 1 if tier == 'quick' else 2
 
 
@@ -148,7 +150,7 @@ def run(scn, ch):
         limit = 2 * max(gmax, 0.6) + scn.n * scn.w + 1.0
         for t_s, ev in world.s_records:
             rq = ev.request
-            if scn.p.get('tight'):
+            if scn.p.get('tight') and len(world.s_records) == 1:
                 # the applicable grace periods: one per termination phase of the operation (the reply of a kill request
                 # that carries its own grace period: that one)
                 phases = scn.n if ev.label.startswith('reload-seq') else 1
